@@ -202,7 +202,9 @@ CLAIMED = {
              "generated and parsed tokens with default and randomly restricted lists; independent predicates "
              "(incl. a transcription of the URL standard's scheme parser) run on the real filter's output.",
         design_ref="DESIGN.md 3 C09",
-        note="Spec/Url.v (browser scheme) is my transcription of the URL standard; regex classes and str.lower are "
+        note="sanitize_css is NOT in the Coq model: the style clause (no url(), only allowed properties) is decided on the "
+             "implementation's output for generated style values (one defect found there and repaired); "
+             "Spec/Url.v (browser scheme) is my transcription of the URL standard; regex classes and str.lower are "
              "environment facts dumped by the translator; a dead branch was noticed (svg_allow_local_href compares "
              "a str with tuples and never fires) -- not part of the property.",
         technique="Coq proof (list/filter reasoning, finite ASCII sweep lifted, arbitrary allow-lists as parameters) "
